@@ -250,3 +250,7 @@ def run(P, R, tier):
         if P.func(k_, required=False) is not None:
             n_dt += _dt.check_function(P, R, k_, raw_attrs=("n", "sum_px", "sum_pxx"))
     R.floor("DTYPE.raw sites (training kernels)", n_dt, 5)
+    from ..engines import proto as _pp
+    _pp.check_pairwise_folds(P, R, ['factor_analysis', 'utils'])
+    from . import C12 as _c12
+    _c12.check_reduce_iadd(P, R)
